@@ -381,6 +381,9 @@ func scenarios() []*mc.Scenario {
 				// several lane goroutines plus the exit signaller: bound the free choices as well
 				pb = [2]int{1, 2}
 				fb = [2]int{4, 6}
+				if probe.lanes >= 3 {
+					fb = [2]int{4, 5} // three lanes: the thorough tier did not complete 2 preemptions with 6 free choices in 25 min
+				}
 			}
 			scs = append(scs, &mc.Scenario{Name: me.name + "/" + p.name, PB: pb, FB: fb, Main: func(w *mc.World) {
 				x := &world{w: w, started: map[int]int{}, lane: map[int]int{}, inLane: map[int]int{}, ended: map[int]bool{}}
@@ -442,7 +445,7 @@ func minIntScenario() *mc.Scenario {
 // reuse: the same CallCtx object is submitted to two MultiLines with different lane counts, then fresh
 // CallCtx objects with the same hash: every call must run on IndexOf(hash) of the executor it was given to.
 func reuseScenario(hash int) *mc.Scenario {
-	return &mc.Scenario{Name: fmt.Sprintf("mline/reused-CallCtx-on-2-and-3-lanes/hash=%d", hash), PB: [2]int{1, 1}, FB: [2]int{4, 7}, Main: func(w *mc.World) {
+	return &mc.Scenario{Name: fmt.Sprintf("mline/reused-CallCtx-on-2-and-3-lanes/hash=%d", hash), PB: [2]int{1, 1}, FB: [2]int{4, 6}, Main: func(w *mc.World) {
 		m2 := mline.NewMultiLine(pipe.WithSlotSize(2), pipe.WithQSize(8))
 		m3 := mline.NewMultiLine(pipe.WithSlotSize(3), pipe.WithQSize(8))
 		m2.Run()
